@@ -108,10 +108,12 @@ def run_cfg_from_consts(consts, strict, snap=True):
             "max_err": int(consts["MaxErr"]), "leios": "15" in consts.get("Versions", ""), "strict": strict, "snap": snap}
 
 
-def select(ctx, scheds, max_cover):
-    """all violating schedules + a seeded sample of the cover (shortest first is kept for half of it)"""
+def select(ctx, scheds, max_cover, prefix_free=True):
+    """all violating schedules + the cover (optionally prefix-free and sampled: shortest half + seeded sample)"""
     find = [s for s in scheds if s["kind"] == "finding"]
     cover = [s for s in scheds if s["kind"] == "cover"]
+    if not prefix_free:
+        return find, cover
     # a schedule that is a proper prefix of another one adds nothing: the longer run passes through it
     keys = [tuple(json.dumps(st, sort_keys=True) for st in s["sched"]) for s in cover]
     prefixes = set()
@@ -119,7 +121,7 @@ def select(ctx, scheds, max_cover):
         for i in range(1, len(k)):
             prefixes.add(k[:i])
     cover = [s for s, k in zip(cover, keys) if k not in prefixes]
-    if len(cover) > max_cover:
+    if max_cover is not None and len(cover) > max_cover:
         cover.sort(key=lambda s: (len(s["sched"]), json.dumps(s["sched"])))
         head = cover[: max_cover // 2]
         rest = cover[max_cover // 2:]
@@ -134,12 +136,30 @@ def write_schedules(path, rows):
             f.write(json.dumps(r, separators=(",", ":")) + "\n")
 
 
-def replay(ctx, binary, rows, name):
-    """rows: [{"id","cfg","sched"}] -> trace file of the real InitiatorBehavior"""
+def replay(ctx, binary, rows, name, sample=None):
+    """rows: [{"id","cfg","sched","exp"?}] -> (trace file of the real InitiatorBehavior, per-schedule results, rows used).
+
+    With `sample=N` the schedules are first all executed without logging (cheap); the runs whose last step's
+    outputs differ from what the design model expects (`exp`), every violating schedule (`must`) and a seeded sample
+    of N of the others are then executed again with a full trace.  So every transition class of the model is compared
+    with the code, and whatever looks different is put before TLC's property specs."""
     inp, out, res = ctx.path(name + ".sched.ndjson"), ctx.path(name + ".trace.ndjson"), ctx.path(name + ".res.ndjson")
+    if sample is not None and len(rows) > sample:
+        write_schedules(inp, rows)
+        ctx.run_bin(binary, ["init-run", "--in", inp, "--out", out, "--res", res, "--log", 0])
+        flags = {r["id"]: r for r in vlib.read_ndjson(res)}
+        odd = [r for r in rows if r.get("must") or flags[r["id"]]["mismatch"]]
+        rest = [r for r in rows if not (r.get("must") or flags[r["id"]]["mismatch"])]
+        rest.sort(key=lambda r: (len(r["sched"]), r["id"]))
+        head = rest[: sample // 2]
+        tail = rest[sample // 2:]
+        random.Random(int(ctx.seed)).shuffle(tail)
+        ctx.count("schedules_executed_on_impl", len(rows))
+        ctx.count("schedules_with_outputs_unlike_model", sum(1 for r in rows if flags[r["id"]]["mismatch"]))
+        rows = odd[:4000] + head + tail[: sample - len(head)]
     write_schedules(inp, rows)
     ctx.run_bin(binary, ["init-run", "--in", inp, "--out", out, "--res", res])
-    return out, vlib.read_ndjson(res)
+    return out, vlib.read_ndjson(res), rows
 
 
 def validate(ctx, module, trace, count=True):
